@@ -59,7 +59,7 @@ CLAIMS = {
   ref="DESIGN.md section 0.1, section 5 C22"),
  "C26": dict(
   text="partial: the character-level state machine of base.ReadMultiline, for every input and every byte: the reader's mode after the byte is the lexical state Go's grammar assigns (code, after '/', line comment, general comment, general comment after '*', string / raw string / rune literal, after a backslash inside one; '#!' opens a line comment) and the bracket depth counts exactly the brackets read in code - stated as a transition relation of one loop iteration (loop step clauses) and proved for all iterations; so the mode 'code' and depth 0, in which alone a chunk is cut, mean 'not inside a string, raw string, rune, comment or unbalanced bracket'",
-  note="trusted: go/ssa front end, SMT solvers, Readline hands over lines that end in a newline. Not covered: losslessness of the concatenation, the line-continuation rules (operators, commas, keywords), the cut test itself, prompts, first-token position, EvalReader / ReadParseEvalPrint",
+  note="trusted: go/ssa front end, SMT solvers, Readline hands over lines that end in a newline. lastIsKeywordIgnoresNl: index safety, the keyword table is asked whenever the line (between first and last) ends in a lower-case letter, and the answer is the table's (every keyword but break, continue, fallthrough, return). Not covered: losslessness of the concatenation, the line-continuation rules for operators and commas, which word is looked up, the cut test itself, prompts, first-token position, EvalReader / ReadParseEvalPrint",
   ref="DESIGN.md section 0.1, section 5 C26"),
  "C27": dict(
   text="partial (the second sentence of the property, and one step of the first): one Interp.Read advances the line counter by exactly the newlines of the text in front of the first token of the chunk it returns (all of the text when it has no token, nothing when the token comes first), counted from the value the counter has when the reader returns; and for every position and every starting line, File.PositionFor / Position give the standard token.File position with the line shifted by the file's starting line when that position is valid, and unchanged otherwise (file name, column, offset never change); FileSet.PositionFor does so for the file the position belongs to and gives the zero position when there is none; File.Source hands out exactly the source line of that (unshifted) line number, or nothing when it is out of range; AddFile registers the file under its inner file with the starting line given",
